@@ -9,7 +9,6 @@ package main
 // exclusive use of every scratch object); every call's result is compared with its sequential result.
 
 import (
-	"runtime/debug"
 	"bufio"
 	"bytes"
 	"encoding/json"
@@ -17,6 +16,7 @@ import (
 	"fmt"
 	"os"
 	"runtime"
+	"runtime/debug"
 	"strconv"
 	"strings"
 	"sync"
